@@ -693,7 +693,8 @@ Qed.
 
 Lemma stmt2_final_common : forall o i x, r_cur th = Some i -> g_own (gh th) = Some i -> nth_error (T g) i = Some x ->
   t_done x = true -> t_owner x = Some t -> (d_best a = true \/ t_inf x = true) -> f_better a = false ->
-  stmt_goal2 g ts t (upd_study 0 (upd_trial i (apply_tmut (TFinal o))) g) th (set_cur_facts (f_hasmeas a) (f_own a) (f_inf a) true a).
+  stmt_goal2 g ts t (upd_study 0 (upd_trial i (apply_tmut (TFinal o))) g) th
+    (set_misc (f_regmiss a) (f_mine a) false (set_cur_facts (f_hasmeas a) (f_own a) (f_inf a) true a)).
 Proof.
   intros o i x Hcur Hown Hx Hd Hw Hdb Hnb. split; [|split].
   - eapply sat2_same_a2 with (a := a). constructor; reflexivity.
@@ -756,7 +757,8 @@ Proof.
   rewrite A in Hsem. unfold otrial in Hsem. fold (T g) in Hsem. rewrite C1 in Hsem.
   injection Hsem as Eg Eth; subst g' th'. simpl.
   set (g1 := upd_study 0 (upd_trial i (apply_tmut TFed)) g).
-  set (al := al_base (a_spec (alg g)) (a_np (alg g)) (S (a_nf (alg g))) (a_fed (alg g) ++ [(0, t_id x)]) (alg g)).
+  set (al := al_fedv (a_fedv (alg g) ++ [(0, t_id x, match r_reward th with Some z => z | None => 0%Z end)])
+              (al_base (a_spec (alg g)) (a_np (alg g)) (S (a_nf (alg g))) (a_fed (alg g) ++ [(0, t_id x)]) (alg g))).
   assert (Hss : same_study2 g1 (set_alg g1 al)) by (constructor; reflexivity).
   split; [|split].
   - assert (Hs1 : sat2 g1 t th a) by (eapply sat2_trial; eauto).
